@@ -1101,6 +1101,24 @@ func Analyse(r *rec.Recorder, out []byte, b *Built, tmpdir, tag string, k int) {
 // ---------------------------------------------------------------------------
 // sinks
 
+// readAll drains a reader with Read calls of the given size (io.Copy would always use one large buffer).
+func readAll(dst *bytes.Buffer, src io.Reader, size int) (int64, error) {
+	buf := make([]byte, size)
+	var total int64
+	for i := 0; i < 10000000; i++ {
+		n, err := src.Read(buf)
+		dst.Write(buf[:n])
+		total += int64(n)
+		if err == io.EOF {
+			return total, nil
+		}
+		if err != nil {
+			return total, err
+		}
+	}
+	return total, errors.New("reader does not end")
+}
+
 // limitSink accepts exactly k bytes, then fails.
 type limitSink struct {
 	k        int
@@ -1245,7 +1263,7 @@ func (rn *Runner) Run() {
 		case "Reader":
 			guard(func() {
 				reader = built.Msg.NewReader()
-				_, oerr = io.Copy(&out, reader)
+				_, oerr = readAll(&out, reader, []int{1, 7, 4096, 100}[(rn.T+k)%4])
 				if oerr == nil {
 					oerr = reader.Error()
 				}
@@ -1258,7 +1276,7 @@ func (rn *Runner) Run() {
 				} else {
 					built.Msg.UpdateReader(reader)
 				}
-				_, oerr = io.Copy(&out, reader)
+				_, oerr = readAll(&out, reader, []int{7, 1, 100, 4096}[(rn.T+k)%4])
 				if oerr == nil {
 					oerr = reader.Error()
 				}
